@@ -102,7 +102,7 @@ CLAIMS.update({
         "its premise (sympy), comparison/logic constructors meet their truth tables on every ordering, zero-ness and "
         "constness of operands (finite enumeration over the builder DSL), constructors build their namesake opcode in "
         "operand order and fold through the opcode's eval, import/export push and pop operands in matching order, TreeOp "
-        "eq/hash cover the same payload and walk the same children unconditionally, drop/eq/hash/import/export/deriv are loops.",
+        "eq/hash cover the same payload and walk the same children unconditionally, drop/eq/hash/import/export/deriv are loops; the Tree builder API builds its namesake opcodes on (self, other) and its operator impls keep source order (also number-on-the-left); the importer's frame rules of C13 are read here too.",
         "static analysis: expression-identity obligations (sympy) + finite case enumeration + pairing/field-coverage lint",
     ),
     "C13": _c(
@@ -131,7 +131,7 @@ CLAIMS.update({
         "Static analysis with an algebraic normaliser: named axes/planes denote what their names say, each primitive and "
         "CSG combinator equals its documented closed form (sympy identity), transforms apply the inverse of their action "
         "on the axis their name says, RevolveY's Move/remap/Move composition is a revolve about x = offset, Blend is the smooth "
-        "minimum under exactly radius > 0, ReflectXY swaps x and y, every shape has a rule, and nested transforms compose (importer frames).",
+        "minimum under exactly radius > 0, ReflectXY swaps x and y, every shape has a rule, a transform returns its input remapped and nothing else (no arithmetic on the remapped value), the vector types shapes are written with act component by component with scalar / vector forms in operand order, and nested transforms compose (importer frames).",
         "static analysis: expression-identity obligations between source expressions and documented closed forms (sympy)",
     ),
 })
@@ -145,7 +145,7 @@ CLAIMS.update({
         "prefix-sum offsets, cells are full/empty only under strict interval guards and leaf corner masks are by identity; "
         "collapse guards (a multi-vertex child is never collapsed, a NaN gradient lane never enters the QEF and marks the leaf "
         "with the sentinel merge refuses); finished vertices return through the projective map and the sign of its determinant "
-        "reaches the triangle order; the QEF algebra (accumulation of n n^T, n (n . p), (n . p)^2 and the mass point, re-centred solve, reported error) and the edge search (interpolation, bracket, midpoint, end points) by symbolic interpretation. Manifoldness, the rank decision of the QEF and the generated tables are out of static reach.",
+        "reaches the triangle order; the QEF algebra (accumulation of n n^T, n (n . p), (n . p)^2 and the mass point, re-centred solve, reported error) and the edge search (interpolation, bracket, midpoint, end points) by symbolic interpretation. The mesher's index vocabulary (axis bits, Axis::next, frames, corner / axis / mask operators, the edge packing and its inverse) is constant-folded over its complete finite domains; the table generator build.rs is compared with its readers (every inside -> outside cell edge once, filed under the slot to_undirected() names, vertex / crossing offsets in the order OctreeBuilder::leaf, the collapse and the dual walk lay out and read a leaf's vertices); cell geometry (child bounds, corner positions, corner signs); the collapse safety test consults the sign at the midpoint of all 12 coarse edges, 6 faces and the cube. Manifoldness, the rank decision of the QEF and the clustering inside the table generator are out of static reach.",
         "static analysis: lattice-geometry consistency of the recursive dual walk + index/guard lints",
     ),
     "C09": _c(
@@ -162,7 +162,7 @@ CLAIMS.update({
         "the rejecting functions, the map form and the chained form of a constructor derive every field identically "
         "(default as hint / default when absent / error), and coercion tables map array indices, names and constants to "
         "their namesakes; script names take precedence over engine fallbacks; registration and classification order; the "
-        "engine's limits are the documented ones. The reflection-driven overload dispatch on argument types is out of static reach.",
+        "engine's limits are the documented ones; script-side vector arithmetic keeps operands in source order in all five operand forms; the two rejecting comparison overloads cover (tree, other) and (other, tree); a positional argument no field takes is an error. The reflection-driven overload dispatch on argument types is out of static reach.",
         "static analysis: registration-table agreement and sibling-builder agreement lint (including macro token streams)",
     ),
     "C18": _c(
@@ -177,7 +177,7 @@ CLAIMS.update({
         "Static analysis of the solver: only Free parameters get a gradient slot and a result, Fixed ones are constants at "
         "their value in both evaluators, the three-per-sample packing agrees between writer lanes, reader lanes and batch "
         "width, an all-zero residual ends the iteration before any change, and a parameter set with no free entry never "
-        "reads the empty gradient batch; the Levenberg-Marquardt step solves (J^T J + damping D) delta = J^T r on symbolic matrices with a damping that grows on a worse trial and shrinks on an accepted one; every equation is visited in every iteration. Convergence and residual size are out of static reach.",
+        "reads the empty gradient batch; the Levenberg-Marquardt step solves (J^T J + damping D) delta = J^T r on symbolic matrices with a damping that grows on a worse trial and shrinks on an accepted one; every equation is visited in every iteration; the damping schedule is scale-free (constant start and factors) and the convergence threshold on the error is an absolute constant. Convergence and residual size are out of static reach.",
         "static analysis: packing-table agreement and exit-ordering lint",
     ),
 })
